@@ -519,9 +519,11 @@ macro_rules! impl_narrow {
             type Output = $to;
 
             fn narrow_saturate(self, lo: $from, hi: $from) -> $to {
-                let mid = lo.0.len() / 2;
+                // The output has twice as many lanes as each input: the
+                // narrowed lanes of `lo` followed by those of `hi`.
+                let mid = lo.0.len();
                 let xs = array::from_fn(|i| {
-                    let x = if i < mid { lo.0[i] } else { hi.0[i] };
+                    let x = if i < mid { lo.0[i] } else { hi.0[i - mid] };
                     x.narrow_saturate()
                 });
                 $to(xs)
